@@ -57,6 +57,16 @@ CHECKS = {
   note="trusted: the table of mutating primitives and their path-argument positions in sa/props/c06.py; libc semantics of "
        "the flags",
   technique="static analysis: dominance (must-pass-through) + interprocedural source/sanitiser/sink provenance on LLVM IR"),
+ "C18": dict(
+  text="Static funnel and data-independence rules: (F1) the verdict of every canonicalize_name/is_filename_sane call "
+       "in all five tools is consumed; (F2) the tar iterator, pack-file line handler and tree node constructor use an "
+       "untrusted name only under the accepting edge of the sanitiser on the same string (unpack side: C06); (DI) every "
+       "byte the two functions load from their argument is only compared for (in)equality with '/', '.', NUL or copied "
+       "within the buffer, i.e. behaviour on all strings is determined by the 3-letter alphabet. Decides the third "
+       "sentence of the property (funnel) and a parametricity precondition; does NOT decide the input/output relation "
+       "(rejects exactly '..', idempotent, never grows), which is value-level.",
+  note="trusted: the list of name sinks per entry point in sa/props/c18.py",
+  technique="static analysis: dominance rules + def-use dataflow (data independence) on LLVM IR"),
 }
 
 NA_DEFAULT = "rules designed in DESIGN.md, not implemented yet (work in progress)"
